@@ -41,6 +41,7 @@ ASSUMPTIONS = [
 ]
 
 MAX_LEN = 6
+SIZES = [0, 1, 1, 2, 2, 2, 3, 3, 3, 4, 4, 5, 6]
 
 # ----------------------------------------------------------------------------- pandas
 
@@ -307,6 +308,7 @@ def _pool_cells():
     other = [True, False,
              {"t": "ts", "v": "2020-01-01T12:00:00", "tz": None}, {"t": "ts", "v": "1999-12-31T00:00:00", "tz": None},
              {"t": "ts", "v": "2020-01-01T12:00:00", "tz": "UTC"}, {"t": "ts", "v": "2021-06-15T08:30:00", "tz": "Europe/Berlin"},
+             {"t": "ts", "v": "1999-12-31T23:00:00", "tz": "UTC"}, {"t": "ts", "v": "2020-01-01T12:00:00", "tz": "Europe/Berlin"},
              {"t": "date", "v": "2020-01-01"}, {"t": "td", "v": "1s"}, {"t": "td", "v": "1 days"},
              {"t": "dec", "v": "1.50"}, {"t": "dec", "v": "2"}, {"t": "dec", "v": "-1.25"}, {"t": "dec", "v": "123456.789"}]
     return ints + floats + strs + other, nulls
@@ -334,18 +336,27 @@ def strat_pandas():
         spec = draw(st.sampled_from(specs))
         good, bad, grey, nulls = parts[spec["name"]]
         mode = draw(st.sampled_from(["free", "free", "free", "no-null", "no-bad", "good", "clear"]))
+        if spec["k"] == "datetime" and draw(st.integers(0, 2)) == 0:
+            # pandas cannot mix naive and aware values (or two zones) in one conversion: a third of the datetime
+            # cases draw their convertible values from ONE zone of aware timestamps only
+            zone = draw(st.sampled_from(["UTC", "Europe/Berlin"]))
+            good = [c for c in good if isinstance(c, dict) and c.get("tz") == zone]
+            grey = [c for c in grey if isinstance(c, dict) and c.get("tz") == zone]
+            mode = "aware:" + mode
         pools = []
         if good:
             pools += [st.sampled_from(good)] * 4
-        if mode in ("free", "no-null", "clear") and bad:
+        m = mode.split(":")[-1]
+        if m in ("free", "no-null", "clear") and bad:
             pools += [st.sampled_from(bad)] * 2
-        if mode in ("free", "no-bad", "clear", "good"):
-            pools += [st.sampled_from(nulls)] * (1 if mode == "good" else 2)
-        if mode in ("free", "no-null", "no-bad") and grey:
+        if m in ("free", "no-bad", "clear", "good"):
+            pools += [st.sampled_from(nulls)] * (1 if m == "good" else 2)
+        if m in ("free", "no-null", "no-bad") and grey:
             pools += [st.sampled_from(grey)] * 2
         if not pools:
             pools = [st.sampled_from(grey or nulls)]
-        cells = draw(st.lists(st.one_of(*pools), min_size=0, max_size=MAX_LEN))
+        n = draw(st.sampled_from(SIZES))
+        cells = draw(st.lists(st.one_of(*pools), min_size=n, max_size=n))
         container = draw(st.sampled_from(["series", "series", "index", "column", "series_schema"]))
         if container == "index" and spec["name"] == "float16":  # pandas: "float16 indexes are not supported"
             container = "series"
@@ -654,7 +665,8 @@ def strat_polars():
             ps += [st.sampled_from(grey)] * 2
         if not ps:
             ps = [st.sampled_from(grey or [None])]
-        cells = draw(st.lists(st.one_of(*ps), min_size=0, max_size=MAX_LEN))
+        n = draw(st.sampled_from(SIZES))
+        cells = draw(st.lists(st.one_of(*ps), min_size=n, max_size=n))
         route = draw(st.sampled_from(["key", "key", "frame", "schema"]))
         return {"dtype": spec, "phys": phys, "cells": cells, "route": route, "mode": mode}
 
